@@ -187,6 +187,37 @@ def parser_cycle(cfg, d, memo):
     return visit(d)
 
 
+def parser_reaches_itself(cfg, d):
+    """Is the definition text d reachable from itself along impl_mentions (breadth-first closure)?"""
+    seen, todo = set(), list(impl_mentions(d, cfg))
+    while todo:
+        x = todo.pop()
+        if x == d:
+            return True
+        if x not in seen:
+            seen.add(x)
+            todo.extend(impl_mentions(x, cfg))
+    return False
+
+
+def text_reaches_itself(table, k):
+    """The same on the generated table with the harness' textual reader (by definition TEXT, as the guard is)."""
+    d = table[k]
+    keys = set(table)
+    seen, todo = set(), [table[x] for x in referenced(d, keys)]
+    while todo:
+        x = todo.pop()
+        if x == d:
+            return True
+        if x not in seen:
+            seen.add(x)
+            for y in keys:
+                if table[y] == x:
+                    todo.extend(table[z] for z in referenced(table[y], keys))
+                    break
+    return False
+
+
 def impl_key_is_one_node(k):
     """The abbreviation `k` alone is one bare element named k (C14_key_is_one_node)."""
     from emmet.abbreviation import parse as abbreviation
@@ -226,6 +257,8 @@ def acyclicity_tie(ctx, tables):
             meta.append(('def', cfg, table, k))
             wires.append([5] + enc_str(k))
             meta.append(('key', cfg, table, k))
+            wires.append([6] + ec + enc_str(d))
+            meta.append(('self', cfg, table, k))
     dis = 0
     n = 0
     for (kind, cfg, table, k), w in zip(meta, snip.run(wires)):
@@ -245,6 +278,12 @@ def acyclicity_tie(ctx, tables):
             if user and want != (not reaches_cycle(table, k)):
                 want = ('parser walk', want, 'textual walk', not want)
             ctx.cover('C14:tie-key-%s' % ('acyclic' if got else 'cyclic'))
+        elif kind == 'self':
+            got = r.bool()
+            want = not parser_reaches_itself(cfg, table[k])
+            if user and want != (not text_reaches_itself(table, k)):
+                want = ('parser walk', want, 'textual walk', not want)
+            ctx.cover('C14:tie-key-%s' % ('self-free' if got else 'reaches-itself'))
         elif kind == 'mentions':
             got = r.list(r.str)
             want = impl_mentions(table[k], cfg)
@@ -343,8 +382,8 @@ def user_cases(ctx, n_tables, tables=None):
         if tables is not None:
             tables.append((cfg, table))
         for k, d in table.items():
-            cyc = reaches_cycle(table, k)
-            any_cycle = any_cycle or cyc
+            any_cycle = any_cycle or reaches_cycle(table, k)
+            cyc = text_reaches_itself(table, k)          # the hypothesis of C14_alias_eq_definition (self_free) fails
             for kind, a, b in su.alias_pairs(k, d, rev):
                 cases.append({'kind': ('user-cyclic:' if cyc else 'user:') + kind, 'a': a, 'b': b, 'config': cfg,
                               'equal': not cyc, 'bound': bound})
@@ -417,7 +456,9 @@ def run(ctx):
                        'abbreviation with the definition written in its place by an independent textual reader (harness/snippet_util.py), '
                        'with and without reverseAttributes; random user tables of 1-6 snippets (multi-node definitions, children, '
                        'repeaters, text, cycles in 60% of the tables): termination, nesting depth of resolve() <= number of distinct '
-                       'definitions (observed by wrapping the parse call), alias = definition for keys that do not reach a cycle; '
+                       'definitions (observed by wrapping the parse call), alias = definition for every key whose definition does not '
+                       'reach itself (the hypothesis self_free of C14_alias_eq_definition; the extracted predicates self_free / acyclic_from / '
+                       'acyclic_table / mentions / key_text are compared with a textual walk and a walk on the implementation\'s parser); '
                        'parse_snippets multi-key expansion; every alias form also through the extracted model. '
                        'non-trivial = decorated alias or user table; distinct by abbreviation + config.')
     multikey_check(ctx)
